@@ -60,7 +60,7 @@ def _case(draw):
     used = set()
     n = draw(st.integers(1, 4))
     for _ in range(n):
-        k = draw(st.integers(0, 11))
+        k = draw(st.integers(0, 13))
         ref_key = draw(st.sampled_from([r for r in REFS if r != shadowed_by_param]))
         ref = REFS[ref_key].replace("{v1}", v1_name)
         num = numeric[ref_key]
@@ -96,6 +96,12 @@ def _case(draw):
                 used.add(ref_key)
         elif k == 10:
             items.append(f"({ref}, {ref})")
+            used.add(ref_key)
+        elif k == 12:  # the captured value sits in the receiver chain of a parameterized call obj.m[T](...)
+            items.append(f"{p}.pick({ref}).get[int](1)")
+            used.add(ref_key)
+        elif k == 13:  # ... or is its direct argument
+            items.append(f"{p}.pick(1).get[float]({ref})")
             used.add(ref_key)
         elif k == 11 and draw(st.booleans()):
             # the (possibly shadowing) lambda parameter used inside a nested lambda: not the innermost binder frame
@@ -147,11 +153,31 @@ def make(ds):
 '''
 
 
+class _Picked:
+    """result of e.pick(v): `.get[T](a)` is a parameterized call that reports what it was given"""
+
+    def __init__(self, v):
+        self._v = v
+
+    @property
+    def get(self):
+        v = self._v
+
+        class _G:
+            def __getitem__(self, t):
+                return lambda a: ("picked", v, getattr(t, "__name__", str(t)), a)
+
+        return _G()
+
+
 class _Elem:
     def __init__(self):
         self._vf_id = 1
         self.n = 5
         self.xs = pyeval.Seq([1, 2, 3])
+
+    def pick(self, v):
+        return _Picked(v)
 
 
 def check(case) -> Result:
@@ -216,7 +242,7 @@ def check(case) -> Result:
         def eval_emitted(q, what):
             lam = q.args[1]
             try:
-                fn = pyeval.evaluate(lam, {})
+                fn = pyeval.evaluate(lam, {"int": int, "float": float})
                 got = pyeval.materialise(fn(_Elem()))
             except Exception as e:
                 return f"{what}: the emitted lambda `{ast.unparse(lam)}` fails without the module namespace: {type(e).__name__}: {e}\n{text}"
@@ -253,7 +279,7 @@ def check(case) -> Result:
                     if log[-1][0] == "ok":
                         lam2 = s2.query_ast.args[1]
                         try:
-                            got2 = pyeval.materialise(pyeval.evaluate(lam2, {})(_Elem()))
+                            got2 = pyeval.materialise(pyeval.evaluate(lam2, {"int": int, "float": float})(_Elem()))
                         except Exception as e:
                             return r.fail(f"second call (after rebinding): emitted lambda `{ast.unparse(lam2)}` fails: {type(e).__name__}: {e}\n{text}")
                         if got2 != log[-1][1]:
